@@ -171,7 +171,7 @@ func c14Sweep(c *Ctx) {
 	}
 	isInvalidSlice := func(t types.Type) bool {
 		sl, ok := types.Unalias(t).Underlying().(*types.Slice)
-		return ok && strings.HasSuffix(sl.Elem().String(), "zap.invalidPair")
+		return ok && strings.HasSuffix(TStr(sl.Elem()), "zap.invalidPair")
 	}
 	isFieldSlice := func(t types.Type) bool {
 		sl, ok := types.Unalias(t).Underlying().(*types.Slice)
@@ -179,14 +179,14 @@ func c14Sweep(c *Ctx) {
 	}
 	isErrSlice := func(t types.Type) bool {
 		sl, ok := types.Unalias(t).Underlying().(*types.Slice)
-		return ok && sl.Elem().String() == "error"
+		return ok && TStr(sl.Elem()) == "error"
 	}
 	cut := 0
 	seqs, trunc := ConcPaths(fn, ConcCfg{
 		MaxIter: depth(3, 4), Cut: &cut, MaxStates: 2000000,
 		// a bare error set aside for later: which argument it is, said while the loop variable still points at it
 		ElemTag: func(st *ConcState, v ssa.Value) string {
-			if v.Type().String() != "error" {
+			if TStr(v.Type()) != "error" {
 				return ""
 			}
 			if t, k, ok := assertOf(st, v); ok && t == "error" {
@@ -748,7 +748,7 @@ func c14Sweep(c *Ctx) {
 }
 
 func typeTag(t types.Type) string {
-	s := t.String()
+	s := TStr(t)
 	switch {
 	case s == "go.uber.org/zap/zapcore.Field" || s == "go.uber.org/zap.Field":
 		return "Field"
